@@ -29,6 +29,10 @@ public:
   void Convert(const ItemType& cc, int ) {
     const auto& args = cc.GetArguments();
     auto compl_arg0 = GetMC().MakeComplementVar(args[0]);
+    /// args[0] is referenced twice now (by its complement and by disj2).
+    /// Count that, so that its defining expression survives
+    /// when disj2 inlines a nested Or.
+    GetMC().IncrementVarUsage(args[0]);
     /// args[0] ==> args[1]
     auto disj1 = GetMC().AssignResultVar2Args(
           OrConstraint{ {compl_arg0, args[1]} });
